@@ -301,4 +301,17 @@ theorem histOK_append (g : Bool) : ∀ (ops1 ops2 : List (Spec × Nat × Op)) (s
     obtain ⟨h1, h2⟩ := histOK_append g rest ops2 _ hr
     exact ⟨⟨hg, hnf, h1⟩, h2⟩
 
+/-- decidable form of "closed under imports" -/
+def closedB (S : Spec) (U : List File) : Bool :=
+  U.all fun h => (S.calls h).all fun c => match c with
+    | some x => U.contains x
+    | none => true
+
+theorem closedB_spec {S : Spec} {U : List File} (h : closedB S U = true) :
+    ∀ h ∈ U, ∀ x, some x ∈ S.calls h → x ∈ U := by
+  intro g hg x hx
+  have h1 := List.all_eq_true.1 h g hg
+  have h2 := List.all_eq_true.1 h1 (some x) hx
+  simpa using h2
+
 end Repo
